@@ -276,6 +276,10 @@ def run(rep):
     rep.analysed = {'function': q, 'template': tmpl[1], 'scrutinees': [E.show(ti), E.show(asp)], 'domain_points': len(pts), 'diverging_points': n_div,
                     'storage_formats': len(sch.variants('naga::StorageFormat')), 'wgpu_core_format_map_rows': len(fmap) if fmap else None}
     rep.floor('domain points on which the table yields a binding type', n_eval, 690)
+    # "is visible to that stage" and "in pipeline-layout order" are clauses of this property decided by C03's / C04's rules
+    from common import include
+    include(rep, 'c03', ('C03.',), 'visibility')
+    include(rep, 'c04', ('C04.R7', 'C04.R3', 'C04.groups-ordered-map'), 'layout-order')
 
 
 def fmt_exp(e):
